@@ -107,6 +107,7 @@ pub open spec fn apply_post_mk<T>(old_: MerkleReg<T>, node: Node<T>, new_: Merkl
         &&& new_.recv() == old_.recv().insert(h, node)
         &&& old_.dg().submap_of(new_.dg())
         &&& (ready(old_.dg(), node) ==> new_.orp().dom().subset_of(old_.orp().dom()))
+        &&& (!ready(old_.dg(), node) ==> new_.dg() == old_.dg() && new_.rts() == old_.rts() && new_.orp() == old_.orp().insert(h, node))
     }
 }
 
